@@ -100,6 +100,19 @@ def _check(b, scale=1.0, off=0.0):
                             assert _close(got[i], e[i]), {"fn": name, "range": "3 points", "p": b["pts"][jj], "i": i, "got": float(got[i]), "expected": e[i]}
             guard("perpendicular-subrange", f4s)
 
+            if scale == 1.0 and off in (0.0, -2.0):
+                def f4i():
+                    # the same integral points stored as an int64 array: distances are real numbers whatever the input dtype
+                    arr = np.vstack([a[None, :], P, bb[None, :]]).astype(np.int64)
+                    e = [0.0] + expp + [0.0]
+                    for name, got in (("perpendicular_distance[int64]", lf.perpendicular_distance(arr)),
+                                      ("perpendicular_distance_index[int64]", lf.perpendicular_distance_index(arr, 0, len(arr) - 1)),
+                                      ("perpendicular_distance_points[int64]", np.concatenate(([0.0], np.asarray(lf.perpendicular_distance_points(arr[1:-1], arr[0], arr[-1]), float), [0.0])))):
+                        assert len(got) == len(e), {"fn": name, "len": len(got)}
+                        for i in range(len(e)):
+                            assert _close(float(got[i]), e[i]), {"fn": name, "i": i, "got": float(got[i]), "expected": e[i]}
+                guard("perpendicular-distance", f4i)
+
         def f5():
             got = kr.distances(a, P)
             e = [math.sqrt(v) * scale for v in b["d2a"]]
